@@ -368,3 +368,21 @@ M('C06', 'spanning-needs-at-least-two', PLF, "    if results.len() == 2 {", "   
 M('C06', 'spanning-reversed', PLF, "            ray.point_at(results[0].0),\n            ray.point_at(results[1].0),", "            ray.point_at(results[1].0),\n            ray.point_at(results[0].0),", 'spanning_ray')
 M('C06', 'cast-ray-positive-only', PLF, "    let mut tmin = SimdReal::splat(f64::MIN);", "    let mut tmin = SimdReal::splat(0.0);", 'cast_ray:admits-negative')
 M('C06', 'visitor-collects-all', PLF, "                if mask.extract(i) {\n                    if let Some(d) = d_opt {\n                        self.collector.push(*d);\n                    }\n                }", "                if let Some(d) = d_opt {\n                    self.collector.push(*d);\n                }", 'RayVisitor::visit:collect', kind='mutant')
+
+# ---------------------------------------------------------------- C18
+ANF = 'src/common/angles.rs'
+IVF = 'src/common/interval.rs'
+M('C18', 'to2pi-wrong-period', ANF, "    let mut angle = radians % (2.0 * PI);\n    if angle < 0.0 {\n        angle += 2.0 * PI;", "    let mut angle = radians % (2.0 * PI);\n    if angle < 0.0 {\n        angle += PI;", 'angle_to_2pi')
+M('C18', 'to2pi-mod-pi', ANF, "pub fn angle_to_2pi(radians: f64) -> f64 {\n    let mut angle = radians % (2.0 * PI);", "pub fn angle_to_2pi(radians: f64) -> f64 {\n    let mut angle = radians % PI;", 'angle_to_2pi:congruent')
+M('C18', 'signed-pi-one-sided', ANF, "    if angle > PI {\n        angle -= 2.0 * PI;\n    } else if angle < -PI {\n        angle += 2.0 * PI;\n    }", "    if angle > PI {\n        angle -= 2.0 * PI;\n    }", 'angle_signed_pi:range')
+M('C18', 'in-direction-cw-no-wrap', ANF, "            let t1 = if t1 > t0 { t1 - 2.0 * PI } else { t1 };\n            t0 - t1", "            t0 - t1", 'angle_in_direction:range')
+M('C18', 'in-direction-ccw-wrong-cmp', ANF, "            let t1 = if t1 < t0 { t1 + 2.0 * PI } else { t1 };", "            let t1 = if t1 > t0 { t1 + 2.0 * PI } else { t1 };", 'angle_in_direction:range')
+M('C18', 'directed-angle-sign-slip', 'src/geom2/angles2.rs', "    if a < 0.0 {\n        a + 2.0 * PI", "    if a > 0.0 {\n        a + 2.0 * PI", 'directed_angle:range')
+M('C18', 'angle-interval-no-clamp', ANF, "                angle: angle.abs().min(2.0 * PI),", "                angle: angle.abs(),", 'AngleInterval::new:angle')
+M('C18', 'angle-interval-neg-start', ANF, "            let start = angle_to_2pi(start + angle);", "            let start = angle_to_2pi(start);", 'AngleInterval::new:shape')
+M('C18', 'interval-new-shadow', IVF, "        assert!(!max.is_nan());\n        Self {\n            min: min.min(max),\n            max: min.max(max),", "        assert!(!max.is_nan());\n        let min = min.min(max);\n        Self {\n            min,\n            max: min.max(max),", 'Interval::new:normalised-pair')
+M('C18', 'interval-try-new-no-nan-check', IVF, "        if min.is_nan() || max.is_nan() {", "        if min.is_nan() {", 'Interval::try_new:nan')
+M('C18', 'interval-contains-open', IVF, "        x >= self.min && x <= self.max", "        x >= self.min && x < self.max", 'Interval::contains')
+M('C18', 'interval-overlaps-one-sided', IVF, "        self.contains(other.min) || other.contains(self.min)", "        self.contains(other.min) || self.contains(other.max)", 'Interval::overlaps')
+M('C18', 'interval-intersection-swapped', IVF, "                self.min.max(other.min),\n                self.max.min(other.max),", "                self.min.min(other.min),\n                self.max.max(other.max),", 'Interval::intersection')
+M('C18', 'compliment-sign', ANF, "    if radians >= 0.0 {\n        (-2.0 * PI) + radians", "    if radians >= 0.0 {\n        (2.0 * PI) - radians", 'signed_compliment_2pi')
